@@ -63,6 +63,7 @@ type system struct {
 	// rate schedule for the token bucket bound
 	rateAt   []int64
 	rateVal  []int
+	rateSeq  []int // transport sequence mark when the segment started
 	maxBurst float64
 }
 
@@ -94,7 +95,7 @@ func newSystem(c config) (*system, error) {
 			write:   func(st int, h *rtp.Header, p []byte) (int, error) { return w[st].Write(h, p, nil) },
 			setRate: func(r int) { f.SetRate("pc", r) },
 			close:   i.Close}
-		sys.rateAt, sys.rateVal = []int64{sys.t0}, []int{c.Rate}
+		sys.rateAt, sys.rateVal, sys.rateSeq = []int64{sys.t0}, []int{c.Rate}, []int{0}
 		sys.maxBurst = burstOf(c.Rate, iv)
 	case "leaky-bucket", "noop":
 		var p gcc.Pacer
@@ -193,13 +194,23 @@ func (sys *system) check(final bool) error {
 		}
 	}
 	if sys.c.Pacer == "token-bucket" {
-		// cumulative bits released by any instant <= burst allowance + integral of the configured rate
-		cum := 0.0
-		for _, r := range sys.t.RTP {
-			cum += float64(8 * (r.Header.MarshalSize() + len(r.Payload)))
-			allow := sys.maxBurst + sys.rateIntegral(r.At)
-			if cum > allow+1 {
-				return fail("C17:rate-exceeded", "by +%dms %.0f bits had been released, allowance is burst %.0f + rate x time %.0f", (r.At-sys.t0)/1e6, cum, sys.maxBurst, allow-sys.maxBurst)
+		// Token bucket bound, for every rate segment i (the initial rate and every SetRate): the bits released
+		// from the start of the segment up to any later instant t never exceed the burst that segment allows
+		// (the bucket cannot hold more than that when the segment starts) plus the integral of the configured
+		// rate from the segment start to t.
+		for i := range sys.rateAt {
+			cum := 0.0
+			burst := burstOf(sys.rateVal[i], time.Duration(sys.c.Interval)*time.Millisecond)
+			for _, r := range sys.t.RTP {
+				if r.Seq <= sys.rateSeq[i] {
+					continue
+				}
+				cum += float64(8 * (r.Header.MarshalSize() + len(r.Payload)))
+				allow := burst + sys.rateIntegralFrom(i, r.At)
+				if cum > allow+1 {
+					return fail("C17:rate-exceeded", "since the rate was set to %d bit/s at +%dms, %.0f bits had been released by +%dms; the allowance is burst %.0f + rate x time %.0f",
+						sys.rateVal[i], (sys.rateAt[i]-sys.t0)/1e6, cum, (r.At-sys.t0)/1e6, burst, allow-burst)
+				}
 			}
 		}
 	}
@@ -213,9 +224,9 @@ func clip(b []byte) []byte {
 	return b
 }
 
-func (sys *system) rateIntegral(t int64) float64 {
+func (sys *system) rateIntegralFrom(from int, t int64) float64 {
 	total := 0.0
-	for i := range sys.rateAt {
+	for i := from; i < len(sys.rateAt); i++ {
 		end := t
 		if i+1 < len(sys.rateAt) && sys.rateAt[i+1] < t {
 			end = sys.rateAt[i+1]
@@ -246,6 +257,7 @@ func (sys *system) apply(sym int) (string, error) {
 		if sys.c.Pacer == "token-bucket" {
 			sys.rateAt = append(sys.rateAt, vsched.NowNanos())
 			sys.rateVal = append(sys.rateVal, r)
+			sys.rateSeq = append(sys.rateSeq, sys.t.SeqNow())
 			if b := burstOf(r, iv); b > sys.maxBurst {
 				sys.maxBurst = b
 			}
